@@ -42,6 +42,12 @@ func runMode(mode string, rep *Report, replay string) bool {
 	case "store":
 		runStore(rep, replay)
 		return true
+	case "known":
+		if replay == "" {
+			runKnown(rep)
+		}
+		rep.Rule = "replay of the witness script of every finding listed for the property in KNOWN_FINDINGS.json"
+		return true
 	}
 	if strings.HasPrefix(mode, "_") {
 		return false
